@@ -32,8 +32,10 @@ vars == <<c, spos, cache, frozen, data, rpos, lcount, ph, ocache, hist, log, ope
 Ids(a, b) == [i \in 1..(b - a) |-> a + i]          \* ids a+1 .. b
 Min2(a, b) == IF a < b THEN a ELSE b
 Drop(s, k) == IF k >= Len(s) THEN <<>> ELSE SubSeq(s, k + 1, Len(s))
-Blk(ids) == [op |-> "read", k |-> (IF ids = <<>> THEN "none" ELSE "blk"), ids |-> ids]
-Err(op, e) == [op |-> op, k |-> e, ids |-> <<>>]
+\* log entries: operation, kind of result, ids returned, and cl = the reader was CLOSED when the call was made
+Ent(op, k, ids) == [op |-> op, k |-> k, ids |-> ids, cl |-> ~opened]
+Blk(ids) == Ent("read", IF ids = <<>> THEN "none" ELSE "blk", ids)
+Err(op, e) == Ent(op, e, <<>>)
 
 Init == /\ c \in {x \in Cfgs : Constructible(x.b, x.h)}
         /\ spos = 0 /\ cache = <<>> /\ frozen = FALSE /\ data = <<>> /\ rpos = 0
@@ -61,6 +63,8 @@ Apply(r, blk, newph, newoc) ==
 
 \* ---- layer 3: framing (util.py:517-518, 551-580)
 CanOp == Len(log) < MaxOps /\ opened
+HasClose == \E i \in 1..Len(log) : log[i].op = "close"
+JustRewound == Len(log) > 0 /\ log[Len(log)].op = "rewind"
 \* a reader that has not been opened yet: read() raises an I/O error, any number of times, and nothing else happens;
 \* open() then makes it a reader on which nothing has been read
 \* (with max_read = 0 nothing is visible anyway: the limiter may answer None before the closed source is even asked --
@@ -68,9 +72,18 @@ CanOp == Len(log) < MaxOps /\ opened
 ReadClosed == /\ ~opened /\ Len(log) < MaxOps
               /\ \/ log' = Append(log, Err("read", "AudioIOError"))
                  \/ c.lim = 0 /\ log' = Append(log, Blk(<<>>))
+                 \* after close(): an exhausted limiter answers None without asking the closed source; an overlap generator that was killed
+                 \* by the I/O error answers None from then on (until the rewind builds a new one)
+                 \* (a hop of the same size in samples as the block but shorter in seconds also selects the overlap generator: no condition on c)
+                 \/ HasClose /\ log' = Append(log, Blk(<<>>))
               /\ UNCHANGED <<c, spos, cache, frozen, data, rpos, lcount, ph, ocache, hist, opened>>
-Open == /\ ~opened /\ Len(log) < MaxOps /\ opened' = TRUE /\ log' = Append(log, [op |-> "open", k |-> "ok", ids |-> <<>>])
+\* close() on a recording reader (util.py:389-390): the source is closed, reads raise as before open(); what has been recorded stays, and the
+\* next rewind() exposes it -- the first rewind re-opens the reader on the recording (util.py:434-445), a later one leaves it closed until
+\* open().  Re-opening a closed recorder WITHOUT a rewind in between (the source starts over, or not, depending on its kind) is outside C19.
+Open == /\ ~opened /\ Len(log) < MaxOps /\ (HasClose => JustRewound) /\ opened' = TRUE /\ log' = Append(log, Ent("open", "ok", <<>>))
         /\ UNCHANGED <<c, spos, cache, frozen, data, rpos, lcount, ph, ocache, hist>>
+Close == /\ c.rec /\ Len(log) < MaxOps /\ opened /\ opened' = FALSE /\ log' = Append(log, Ent("close", "ok", <<>>))
+         /\ UNCHANGED <<c, spos, cache, frozen, data, rpos, lcount, ph, ocache, hist>>
 ReadFixed == /\ c.h = c.b /\ CanOp
              /\ LET r == LimRead(c.b) IN Apply(r, r.blk, ph, ocache)
 ReadOvInit == /\ c.h < c.b /\ ph = "init" /\ CanOp
@@ -88,22 +101,22 @@ ReadOvBroken == /\ c.h < c.b /\ ph = "broken" /\ CanOp
                 /\ log' = Append(log, Err("read", "TypeError")) /\ ph' = "dead"
                 /\ UNCHANGED <<c, spos, cache, frozen, data, rpos, lcount, ocache, hist, opened>>
 \* rewind (util.py:434-445, 490-492, 582-584): recording readers only
-Rewind == /\ c.rec /\ CanOp
-          /\ IF frozen THEN UNCHANGED <<data, frozen, cache>>
-                       ELSE data' = cache /\ frozen' = TRUE /\ cache' = <<>>
+Rewind == /\ c.rec /\ Len(log) < MaxOps /\ (opened \/ HasClose)
+          /\ IF frozen THEN UNCHANGED <<data, frozen, cache, opened>>
+                       ELSE data' = cache /\ frozen' = TRUE /\ cache' = <<>> /\ opened' = TRUE        \* the first rewind opens the replay buffer
           /\ rpos' = 0 /\ lcount' = 0 /\ ph' = "init" /\ ocache' = <<>> /\ hist' = <<>>
-          /\ log' = Append(log, [op |-> "rewind", k |-> "ok", ids |-> <<>>]) /\ UNCHANGED <<c, spos, opened>>
+          /\ log' = Append(log, Ent("rewind", "ok", <<>>)) /\ UNCHANGED <<c, spos>>
 RewindNoRec == /\ ~c.rec /\ CanOp /\ log' = Append(log, Err("rewind", "AttributeError"))
                /\ UNCHANGED <<c, spos, cache, frozen, data, rpos, lcount, ph, ocache, hist, opened>>
 \* .data (util.py:395-399, 423-429, 470-474, 744-754)
 LimData == IF c.lim < 0 THEN data ELSE SubSeq(data, 1, Min2(Len(data), c.lim))
-Data == /\ CanOp
+Data == /\ Len(log) < MaxOps /\ (opened \/ HasClose)
         /\ log' = Append(log, IF ~c.rec THEN Err("data", "AttributeError")
                               ELSE IF ~frozen THEN Err("data", "RuntimeError")
-                              ELSE [op |-> "data", k |-> "blk", ids |-> LimData])
+                              ELSE Ent("data", "blk", LimData))
         /\ UNCHANGED <<c, spos, cache, frozen, data, rpos, lcount, ph, ocache, hist, opened>>
 Finished == Len(log) >= MaxOps /\ UNCHANGED vars
-Next == ReadClosed \/ Open \/ ReadFixed \/ ReadOvInit \/ ReadOvRun \/ ReadOvDead \/ ReadOvBroken \/ Rewind \/ RewindNoRec \/ Data \/ Finished
+Next == ReadClosed \/ Open \/ Close \/ ReadFixed \/ ReadOvInit \/ ReadOvRun \/ ReadOvDead \/ ReadOvBroken \/ Rewind \/ RewindNoRec \/ Data \/ Finished
 Spec == Init /\ [][Next]_vars
 
 \* ---- declarative side (C10): what the k-th read since the last rewind must return
@@ -117,8 +130,12 @@ Expected(k) ==
   ELSE IF (k - 2) * c.h + c.b < Visible THEN Slice((k - 1) * c.h, Min2((k - 1) * c.h + c.b, Visible))
   ELSE <<>>
 \* reads on an OPEN reader never fail (position of the open() in the log, 0 if the reader started open)
-OpenAt == IF \E i \in 1..Len(log) : log[i].op = "open" THEN CHOOSE i \in 1..Len(log) : log[i].op = "open" ELSE 0
-NoErrors == \A i \in 1..Len(log) : log[i].op = "read" => (IF opened /\ i > OpenAt THEN log[i].k \in {"blk", "none"} ELSE (log[i].k = "AudioIOError" \/ (c.lim = 0 /\ log[i].k = "none")))
+OpenIdx == {i \in 1..Len(log) : log[i].op = "open"}
+OpenAt == IF OpenIdx # {} THEN CHOOSE i \in OpenIdx : \A j \in OpenIdx : i <= j ELSE 0                \* the first open()
+StartedOpen == IF log = <<>> THEN opened ELSE ~log[1].cl
+\* reads on an OPEN reader never fail; on a closed one they raise an I/O error (or answer None where the statement does not choose)
+NoErrors == \A i \in 1..Len(log) : log[i].op = "read" =>
+               (IF ~log[i].cl THEN log[i].k \in {"blk", "none"} ELSE (log[i].k = "AudioIOError" \/ ((c.lim = 0 \/ HasClose) /\ log[i].k = "none")))
 C10 == /\ NoErrors
        /\ \A k \in 1..Len(hist) : hist[k] = Expected(k)
        \* blocks have exactly b samples except the last one; after the first None every read gives None
@@ -135,11 +152,12 @@ C19 == /\ (frozen => /\ data = Ids(0, Len(data))                 \* each consume
        \* data is only ever exposed after a rewind, and it is the consumed prefix
        /\ \A i \in 1..Len(log) : log[i].op = "data" /\ log[i].k = "blk" => log[i].ids = Ids(0, Len(log[i].ids)) /\ c.rec
 \* replay: after a rewind the blocks read are a prefix-wise copy of those read before it (checked on the log)
-ReadsBetween(i, j) == SelectSeq(SubSeq(log, i, j), LAMBDA e : e.op = "read")
+\* the reads made on an OPEN reader between two positions of the log (reads on a closed reader are not part of any pass)
+ReadsBetween(i, j) == SelectSeq(SubSeq(log, i, j), LAMBDA e : e.op = "read" /\ ~e.cl)
 RewindIdx == {i \in 1..Len(log) : log[i].op = "rewind" /\ log[i].k = "ok"}
 C19Replay == \A i \in RewindIdx :
                LET prevs == {j \in RewindIdx : j < i}
-                   lo == IF prevs = {} THEN OpenAt + 1 ELSE (CHOOSE j \in prevs : \A m \in prevs : m <= j) + 1      \* reads before open() are not part of any pass
+                   lo == IF prevs = {} THEN 1 ELSE (CHOOSE j \in prevs : \A m \in prevs : m <= j) + 1      \* reads before open() are not part of any pass
                    nexts == {j \in RewindIdx : j > i}
                    hi == IF nexts = {} THEN Len(log) ELSE (CHOOSE j \in nexts : \A m \in nexts : j <= m) - 1
                    before == ReadsBetween(lo, i - 1)
